@@ -544,6 +544,14 @@ def run_source(params, known):
         v['case'] = dict(source=kind, protected=data.hex(), altered=alt_bytes.hex(), alteration=what, keymode=right, with_ca=with_ca)
         violations.append(v)
 
+    if not kind.startswith('oracle'):
+        # what the source was configured to protect is what its integrity block(s) name, each block once
+        want_nums = sorted(b['num'] for b in orig['blocks'] if b['type'] in set(targets))
+        got_nums = sorted(t for b in orig['blocks'] if b['type'] == B.T_BIB for t in B.dec_asb(b['data'])['targets'])
+        if got_nums != want_nums:
+            viol('integrity-block-does-not-name-the-configured-targets', dict(), 'targets on the wire %r, blocks of the configured types %r' % (got_nums, want_nums),
+                 data, 'none')
+
     def judge(alt_bytes, what, keymode):
         (verdict, alt) = classify(orig, alt_bytes) if alt_bytes != data else ('must-verify', orig)
         if keymode != right and verdict in ('must-verify', 'either') and alt_bytes == data:
